@@ -1101,7 +1101,21 @@ func GenCase(t *rapid.T, k Knobs) *Case {
 			}
 			add(g.genInvoke(is))
 		}},
-		{k.WVisualize, func() { add(Op{K: OpVisualize}) }},
+		{k.WVisualize, func() {
+			op := Op{K: OpVisualize}
+			// mostly with the error of an earlier Invoke (VisualizeError)
+			var invs []int
+			for i, o := range g.c.Ops {
+				if o.K == OpInvoke {
+					invs = append(invs, i)
+				}
+			}
+			if len(invs) > 0 && g.pct(60, "viserr") {
+				e := invs[g.pickLate(len(invs), "viserrof")]
+				op.ErrOf = &e
+			}
+			add(op)
+		}},
 		{k.WString, func() { add(Op{K: OpString, S: g.pickScope("ss")}) }},
 		{k.WBadProvide, func() { g.focusOn(g.genBadProvide(g.pickScope("bps"))) }},
 		{k.WBadDecorate, func() { g.focusOn(g.genBadDecorate(g.pickScope("bds"))) }},
